@@ -66,7 +66,7 @@ LENS = list(range(0, 13)) + list(range(1020, 1027))
 HARNESSES = [
     {"fn": "h_entry", "cases": ["L%d" % n for n in LENS], "quick_cases": ["L0", "L3", "L4", "L1023", "L1024", "L1025"],
      "timeout": {"quick": 90, "thorough": 300}},
-    {"fn": "h_buffer", "cases": ["size", "second-bad", "header"], "timeout": {"quick": 120, "thorough": 400}},
+    {"fn": "h_buffer", "cases": ["size", "second-bad", "header", "fields"], "timeout": {"quick": 120, "thorough": 400}},
     {"fn": "h_strings", "cases": ["hash", "binary", "two-files"], "timeout": {"quick": 120, "thorough": 400}},
     {"fn": "h_args", "cases": ["n%d" % n for n in (0, 3, 4, 8, 11, 20, 24)] + ["pct:0", "pct:4", "mismatch"],
      "quick_cases": ["n8", "n24", "pct:0", "mismatch", "n3"], "timeout": {"quick": 120, "thorough": 400}},
@@ -168,10 +168,24 @@ def h_buffer() -> bool:
         if bool(good) and len(lines) == 10:
             conds += [lines[8] == " 1:00:00 0123   562 partial two 00000009", lines[9] == " 1:00:00 0123   562 no args here"]
         return verdict(sym_all(conds), obs={"lines": lines})
-    # header fields
+    if CASE == "fields":
+        # time stamp, sequence number and source line of an entry are shown as stored (all values)
+        tbh, tbl, line = sym_int("tbh", 0, 0xFFFF), sym_int("tbl", 0, 0xFFFF), sym_int("line", 0, 99999)
+        ent = mkbytes(be(tbh, 2), be(tbl, 2), b"\x00\x00\x46\x54", (3300222).to_bytes(4, "big"), be(line, 4), (20).to_bytes(4, "big"))
+        lines = run(mkbytes(header(32 + 20), ent))
+        from harness.C14_ilog import ts_text
+        conds = [len(lines) == 8]
+        if len(lines) == 8:
+            ln = lines[7]
+            conds += [len(ln) == 8 + 1 + 4 + 1 + 5 + 1 + len("no args here"), str_is(ln[:8], ts_text(tbh)),
+                      str_is(ln[9:13], [hexdigit_cp(nib(b, h)) for b in be(tbl, 2) for h in (True, False)]),
+                      numval_eq(ln[14:19].lstrip(" "), line, 10), ln[19:] == " no args here"]
+        return verdict(sym_all(conds), obs={"lines": lines[7:]})
+    # header fields (the 4 reserved bytes after the component name are not part of it)
     ver, wrap = sym_int("ver", 0, 255), sym_int("wrap", 0, 0xFFFFFFFF)
     comp = sym_bytes("comp", 4, 0x41, 0x5A)
-    data = mkbytes([ver], b"\x20\x01\x42", comp, b"    \0\0\0\0", b"\0\0\0\0", (32 + t1).to_bytes(4, "big"), be(wrap, 4), b"\0\0\0\x40", e1)
+    rsvd = sym_bytes("rsvd", 4)
+    data = mkbytes([ver], b"\x20\x01\x42", comp, b"    \0\0\0\0", rsvd, (32 + t1).to_bytes(4, "big"), be(wrap, 4), b"\0\0\0\x40", e1)
     lines = run(data)
     conds = [len(lines) == 8]
     if len(lines) == 8:
